@@ -70,6 +70,13 @@ type Promise struct {
 	// Only Fulfill, Reject, or Join will set callsStopped.
 	callsStopped chan struct{}
 
+	// pendingDone is non-nil in the pending resolution state.  It is
+	// closed once ongoingCalls has dropped to zero and result and err are
+	// set: pipelined calls that found the promise pending wait for it and
+	// are then made on the result, while the promise's clients are still
+	// being fulfilled and before the resolution is signalled.
+	pendingDone chan struct{}
+
 	// clients is a table of promised clients created to proxy the eventual
 	// result's clients.  Even after resolution, this table may still have
 	// entries until the clients are released.  nil if the promise was
@@ -186,13 +193,30 @@ func (p *Promise) resolve(r Ptr, e error) {
 	p.caller = nil
 
 	if len(p.clients) > 0 || p.ongoingCalls > 0 {
-		// Pending resolution or join state: wait for clients to be fulfilled
-		// and calls to have answers.  p.clients cannot be touched in the
+		// Pending resolution or join state: wait for calls to have answers
+		// and clients to be fulfilled.  p.clients cannot be touched in the
 		// pending resolution state, so we have exclusive access to the
 		// variable.
+		pendingDone := make(chan struct{})
+		p.pendingDone = pendingDone
 		if p.ongoingCalls > 0 {
 			p.callsStopped = make(chan struct{})
+			p.mu.Unlock()
+			<-p.callsStopped
+			p.mu.Lock()
 		}
+		// Every call made with caller has an answer.  Let the pipelined
+		// calls that are waiting for the resolution (possibly made through
+		// one of the clients below, whose fulfillment waits for them)
+		// proceed on the result.  The resolution is signalled only after
+		// the clients are fulfilled: the result must not be read after that.
+		p.result, p.err = r, e
+		if p.joined != nil {
+			// Transition out of pending join state.
+			close(p.joined)
+			p.joined = nil
+		}
+		close(pendingDone)
 		p.mu.Unlock()
 		res := resolution{p.method, r, e}
 		for path, row := range p.clients {
@@ -201,9 +225,6 @@ func (p *Promise) resolve(r Ptr, e error) {
 				row[i].promise.Fulfill(res.client(t))
 				row[i].promise = nil
 			}
-		}
-		if p.callsStopped != nil {
-			<-p.callsStopped
 		}
 		p.mu.Lock()
 	}
@@ -215,6 +236,7 @@ func (p *Promise) resolve(r Ptr, e error) {
 		p.joined = nil
 	}
 	p.callsStopped = nil
+	p.pendingDone = nil
 	p.result, p.err = r, e
 	for _, ch := range p.signals {
 		close(ch)
@@ -453,10 +475,12 @@ traversal:
 		p.mu.Unlock()
 		return ans, release
 	case p.isPendingResolution():
-		// Block new calls until resolved.
+		// Block new calls until the calls in flight have answers and
+		// the result is known.
+		pendingDone := p.pendingDone
 		p.mu.Unlock()
 		select {
-		case <-p.resolved:
+		case <-pendingDone:
 		case <-ctx.Done():
 			return ErrorAnswer(s.Method, ctx.Err()), func() {}
 		}
@@ -511,10 +535,12 @@ traversal:
 		p.mu.Unlock()
 		return pcall
 	case p.isPendingResolution():
-		// Block new calls until resolved.
+		// Block new calls until the calls in flight have answers and
+		// the result is known.
+		pendingDone := p.pendingDone
 		p.mu.Unlock()
 		select {
-		case <-p.resolved:
+		case <-pendingDone:
 		case <-ctx.Done():
 			r.Reject(ctx.Err())
 			return nil
